@@ -1,3 +1,4 @@
+import NunVerif.Props.C06Layout
 import NunVerif.Props.C06Reclaim
 /-!
 # C06 — snapshot then restart restores exactly the snapshotted state, after ANY history
